@@ -176,7 +176,11 @@ VARIANTS = {
     # name: (compiler, flags)
     "exact": ("g++", ["-std=c++17", "-O1", "-w"]),
     "exact_checks": ("g++", ["-std=c++17", "-O1", "-w", "-DBSPLINE_ADD_TEST_CHECKS"]),
+    # the second archetype: not trivially copyable, detects bitwise relocation / creation of scalars (C19)
+    "exact_self": ("g++", ["-std=c++17", "-O1", "-w", "-DVERIF_RAT_SELFCHECK"]),
     "fp": ("g++", ["-std=c++17", "-O2", "-w", "-DVH_FP", "-DBSPLINE_INTERPOLATION_USE_EIGEN"]),
+    # fall-back when the exact archetype no longer compiles (C19 reports that): the floating half without its exact twin pass
+    "fp_notwin": ("g++", ["-std=c++17", "-O2", "-w", "-DVH_FP", "-DBSPLINE_INTERPOLATION_USE_EIGEN", "-DVH_NO_EXACT_TWIN"]),
     "fp_checks": ("g++", ["-std=c++17", "-O2", "-w", "-DVH_FP", "-DBSPLINE_INTERPOLATION_USE_EIGEN", "-DBSPLINE_ADD_TEST_CHECKS"]),
     "fp_O0": ("g++", ["-std=c++17", "-O0", "-w", "-DVH_FP", "-DBSPLINE_INTERPOLATION_USE_EIGEN"]),
     "fp_O3": ("g++", ["-std=c++17", "-O3", "-w", "-DVH_FP", "-DBSPLINE_INTERPOLATION_USE_EIGEN"]),
